@@ -12,6 +12,9 @@ func C07FreeRun(iters int) (string, error) {
 	progs := C07Corpus()
 	calls := 0
 	for _, p := range progs {
+		if p.SeqOnly {
+			continue
+		}
 		iso := make([]string, len(p.Calls))
 		for ci, c := range p.Calls {
 			e, err := C7Compile(p)
